@@ -37,6 +37,26 @@ let handle (toks : string list) : string =
   | "cls" :: leap :: itv :: kind :: secs :: nanos :: [] ->
     let age = if z_of_string kind = Z0 then Some (z_of_string secs, z_of_string nanos) else None in
     string_of_z (Client.status_code (Bound.classify (z_of_string leap) (z_of_string itv) age))
+  | "upd" :: drift :: n :: rest ->
+    let rec msgs k toks acc =
+      if k = 0 then List.rev acc else
+      match toks with
+      | "r" :: d :: e :: o :: leap :: itv :: kind :: secs :: nanos :: phc :: as_s :: as_n :: tl ->
+        let age = if z_of_string kind = Z0 then Some (z_of_string secs, z_of_string nanos) else None in
+        msgs (k - 1) tl (Updater.MReport (z_of_string d, z_of_string e, z_of_string o, z_of_string leap, z_of_string itv, age,
+                                          z_of_string phc, { Mach.ts_sec = z_of_string as_s; Mach.ts_nsec = z_of_string as_n }) :: acc)
+      | ("m" | "p") :: g :: tl -> msgs (k - 1) tl (Updater.MMissing (z_of_string g <> Z0) :: acc)
+      | _ -> failwith "upd: bad message list" in
+    let ms = msgs (int_of_string n) rest [] in
+    (match Updater.urun (Updater.u_init (z_of_string drift)) ms with
+     | None -> "panic"
+     | Some (_, cs) ->
+       String.concat " " (string_of_int (List.length cs) ::
+         List.concat_map (fun c ->
+           [string_of_z c.Client.c_as_of.Mach.ts_sec; string_of_z c.Client.c_as_of.Mach.ts_nsec;
+            string_of_z c.Client.c_void_after.Mach.ts_sec; string_of_z c.Client.c_void_after.Mach.ts_nsec;
+            string_of_z c.Client.c_bound; string_of_z c.Client.c_drift;
+            string_of_z (Client.status_code c.Client.c_status)]) cs))
   | "gro" :: e :: d :: [] -> string_of_z (Client.growth (z_of_string e) (z_of_string d))
   | tag :: _ -> failwith ("unknown tag " ^ tag)
   | [] -> ""
